@@ -47,7 +47,10 @@ SnapOK(snap, tbl, cch) ==
 Obl(e) ==
   CASE e.op = "ANew" -> <<>>
     [] e.op = "VerifyRequest" -> <<
-         <<"quiet", e.panic = "">>,
+         \* Named tolerance: a request OBJECT with a field longer than its 16-bit length prefix can carry cannot come from
+         \* the wire; the library's encoder panics on it while rebuilding the signed message.  The panic is tolerated
+         \* (the caller built an unencodable object); ACCEPTING such a request is not.
+         <<"quiet", e.panic = "" \/ e.variant = "oversize-enc">>,
          <<"accepts-iff-authentic", e.ok <=> VerifyOK(Q(e))>>,
          <<"put-only-on-first-accept", e.puts = (IF VerifyOK(Q(e)) /\ e.c \notin Registered THEN 1 ELSE 0)>>,
          <<"registered-after", {e.registered[i] : i \in 1..Len(e.registered)} =
